@@ -523,6 +523,19 @@ def run(ctx):
     budget = 95 if not thorough else 540
     n = 60 if not thorough else 700
     npass = 150 if not thorough else 1500
+    # exhaustive sweep of the parameter box of theorem v12_local_valid_lmin1_bounded (and version 0 on the same box):
+    # what an area computes depends only on (version, dim, lmin, lmax, coarsening), so agreement of coarsen_grid on
+    # the whole box carries the kernel-checked validity of the model's `computed` over to the implementation
+    from sparseSpACE.combiScheme import CombiScheme
+    for ver in (0, 1, 2):
+        for dim in (2, 3, 4):
+            for lmax in range(1, 6):
+                lvs = [[int(x) for x in g.levelvector] for g in CombiScheme(dim).getCombiScheme(1, lmax, do_print=False)]
+                for c in range(0, lmax + 1):
+                    pc = {"kind": "pass", "version": ver, "dim": dim, "lmin": 1, "lmax": lmax, "c": c, "lvs": lvs}
+                    run_pass_case(ctx, drv, pc)
+                    ctx.count("sweep_lmin1_box")
+                    ctx.case(pc, nontrivial=c > 0)
     for k in range(npass):
         pc = gen_pass_case(ctx)
         ok = run_pass_case(ctx, drv, pc)
